@@ -316,3 +316,9 @@ def run(ctx):
     from rules import round3
     round3.check_breakdown_schedule(ctx, "R20.5")
     round3.check_sort_outputs_rewritable(ctx, "R20.5")
+    ctx.rule("R20.6", "the breakdown multiplexers rest on the same protocol as every other: a change of selection "
+             "disconnects the previously selected input whatever its index (C06 R6.4's evaluation of cb_select), otherwise "
+             "a stale subsystem input keeps overwriting the task type")
+    from rules import round4
+    round4.share(ctx, "R20.6", "C06", lambda i_: i_["rule"] == "R6.4" and i_["inst"].startswith("cb_select:"), "mux:",
+                 "the breakdown rows show a stale input's value", 4)
